@@ -344,8 +344,13 @@ impl W {
         self.raw(&line);
         self.tokens.push((id.to_string(), self.line));
     }
-    /// an entry line "i [j [k]] value"
+    /// an entry line "i [j [k]] value" (comment and blank lines may stand between entries as well)
     fn entry(&mut self, id: &str, idx: &[usize], text: &str) {
+        if self.k % 2 == 1 {
+            self.deco();
+        } else {
+            self.k += 1;
+        }
         let t = if self.inject == QInject::Token(id.to_string()) { "12..5" } else { text };
         let mut s = String::new();
         let sep = if self.tabs { "\t" } else { " " };
